@@ -198,17 +198,19 @@ impl CertConsumer for ASN1Writer<'_> {
         // Note: ASN1 has multiple strings, this is BIT String
 
         // Strip off the end zeroes
-        let mut last_byte = s.len() - 1;
+        let mut len = s.len();
         let mut num_of_zero = 0;
         if truncate {
-            while s[last_byte] == 0 {
-                last_byte -= 1;
+            while len > 0 && s[len - 1] == 0 {
+                len -= 1;
             }
             // For the last valid byte, identifying the number of last bits
-            // that are 0s
-            num_of_zero = s[last_byte].trailing_zeros() as u8;
+            // that are 0s (an all-zero string is the empty BIT STRING)
+            if len > 0 {
+                num_of_zero = s[len - 1].trailing_zeros() as u8;
+            }
         }
-        let s = &s[..(last_byte + 1)];
+        let s = &s[..len];
         self.append_tlv(0x03, s.len() + 1, |t| {
             t.buf[t.offset] = num_of_zero;
             let end_offset = t.offset + 1 + s.len();
